@@ -278,7 +278,7 @@ def gen_api_case(rng, variant=None):
 class Prop:
     pid = 'C17'
     props_file = 'Props/C17.v'
-    required_theorems = ['from_api_total']
+    required_theorems = ['attr_roundtrip_up_to_flags', 'attr_roundtrip_core_outside_known', 'attr_roundtrip_core_refuted', 'from_api_total', 'from_api_preserves_wf', 'wire_values_are_wf', 'wf_is_safe_downstream', 'api_accepted_is_safe']
     correspondence_name = ('Model/Api.v (wire_accept, to_api, from_api, consumers) vs daemon/src/convert.rs attr_to_api/attr_from_api, '
                            'packet Attribute::{decode,as_path_length,encode}, table RibEntry::cmp via Table::insert (harness/daemon/convert_hx.rs)')
     rule = ('cases = (kind 0) one wire attribute (flags, code, value) decoded by PeerCodec::parse_message then round-tripped through the API form; '
